@@ -18,6 +18,22 @@ func genJoinCase(r *wire.Rng, n int, stream string, w *wire.Out) {
 	if racy {
 		head = append(head, "jr")
 	}
+	unchecked := false
+	if r.Chance(30, 100) {
+		head = append(head, "jd")
+	}
+	if !racy && r.Chance(20, 100) {
+		head = append(head, "ju")
+		unchecked = true
+	}
+	// unchecked joins need disjoint keys: every key belongs to one collection
+	owner := func(k string) int {
+		h := 0
+		for _, c := range k {
+			h = h*31 + int(c)
+		}
+		return h % ncols
+	}
 	jr := newJoinRunState(ncols, racy)
 	var lines []string
 	emit := func(toks ...string) { lines = append(lines, strings.Join(toks, " ")) }
@@ -36,11 +52,17 @@ func genJoinCase(r *wire.Rng, n int, stream string, w *wire.Out) {
 		return len(l) == 0 || (len(l) == 1 && l[0] == i) || jr.nsubs == 0 && false
 	}
 	set := func(i int, o Obj) {
+		if unchecked {
+			i = owner(o.ResourceName())
+		}
 		jr.touch(o.ResourceName(), i)
 		jr.state[i][o.ResourceName()] = o
 		emit("c.set", strconv.Itoa(i), o.Token())
 	}
 	del := func(i int, k string) {
+		if unchecked {
+			i = owner(k)
+		}
 		if _, f := jr.state[i][k]; f {
 			jr.touch(k, i)
 			delete(jr.state[i], k)
